@@ -4,6 +4,7 @@ import (
 	"fmt"
 	"go/token"
 	"go/types"
+	"sort"
 	"strings"
 
 	"golang.org/x/tools/go/ssa"
@@ -21,7 +22,7 @@ func init() {
 func runC01(c *Ctx) {
 	r := c.R
 	r.Doc("B0", "role resolution by effect", 2)
-	r.Doc("B1", "successful send: exactly one tactic[k]-=1 and one actual[k]+=1, k = Priority tag; none otherwise; no other increment of actual", 4)
+	r.Doc("B1", "successful send: exactly one tactic[k]-=1 and one actual[k]+=1, k = Priority tag; none otherwise; no other increment of actual, and actual is never handed to a writer", 6)
 	r.Doc("B2", "every call of the sending function is guarded by tactic[k] != 0, no tactic writer in between", 4)
 	r.Doc("B3", "every writer of tactic is classified", 12)
 	r.Doc("B4", "vacants = HandlersQuantity - sum(actual), sum = plain accumulation over the map", 2)
@@ -31,6 +32,7 @@ func runC01(c *Ctx) {
 	r.Doc("B10", "tactic typestate: the sending function is reached only with an established or all-zero allotment; divisions only from the reset state with a valid dividend", 2)
 	r.Doc("B11", "v1: actual entries are deleted only when zero and unregistered; no other writer of actual", 1)
 	r.Doc("B12", "simplified disciplines: Handle between receive and release (= X7)", 2)
+	r.Doc("B14", "v1: AddInput/RemoveInput commands are received only outside the functions that use the round's allotment (a removal served inside a blocked send deletes tactic[k] under the decrement that follows)", 2)
 	r.Doc("B13", "the configured HandlersQuantity is the capacity in force: it is only ever copied, never recomputed", 2)
 	for _, p := range []*Prog{c.V1, c.V2} {
 		pr, err := resolvePrio(p)
@@ -53,6 +55,7 @@ func runC01(c *Ctx) {
 		checkCapacityUnmodified(c, p, "B13")
 		if pr.v1 {
 			checkB11(c, pr)
+			checkCommandsBetweenRounds(c, pr, "B14")
 		}
 		c01handlers(c, p)
 	}
@@ -184,6 +187,34 @@ func checkB1(c *Ctx, pr *prioRoles) {
 				}
 			}
 		}
+	}
+	// ... and the in-flight counts are never handed to something that writes its argument (a
+	// division made into them - safeDivide(..., dsc.actual) - adds handlers nobody occupies)
+	ai := p.alias()
+	k := 0
+	for _, g := range p.Funcs() {
+		if rel, _ := p.Rel(g); rel != "priority" || !p.Live()[g] {
+			continue
+		}
+		for _, w := range ai.contentWritesIn(g) {
+			if _, direct := w.In.(*ssa.MapUpdate); direct {
+				continue // classified above and by B9 / B11
+			}
+			if call, ok := w.In.(*ssa.Call); ok {
+				if bi, ok := call.Call.Value.(*ssa.Builtin); ok && (bi.Name() == "delete" || bi.Name() == "clear") {
+					continue // B11
+				}
+			}
+			for _, root := range ai.Roots(w.Target) {
+				if root.Kind == "fieldload" && strings.HasSuffix(root.Path, ".actual") {
+					k++
+					c.R.Fail("B1", fmt.Sprintf("%s#actual-content.%d", p.FnKey(g), k), p.InstrPos(w.In), "the in-flight counts are written by something other than the +1 of a send and the -1 of a release ("+w.How+"): they no longer count the items being processed, and vacants = HandlersQuantity - sum(actual) is wrong")
+				}
+			}
+		}
+	}
+	if k == 0 {
+		c.R.Pass("B1", pr.key+"#actual-content", "-", "the in-flight counts are never handed to a writer")
 	}
 }
 
@@ -481,7 +512,7 @@ func checkB5(c *Ctx, pr *prioRoles, strict bool) {
 			cm := p.NormCmp(iff.Cond, e.Succ == 0)
 			if cm != nil {
 				l, r := deepStrip(cm.L), deepStrip(cm.R)
-				if (isIdx(l, "actual") && isIdx(r, "strategic")) || strings.Contains(cm.String(), "len(") {
+				if (isIdx(l, "actual") && isIdx(r, "strategic")) || isRangeHeaderCmp(cm) {
 					continue
 				}
 			}
@@ -1007,4 +1038,75 @@ func checkB10(c *Ctx, pr *prioRoles) {
 	sortStrings(divs)
 	c.R.Check(len(problems) == 0, "B10", pr.key, p.Pos(pr.sr.loopFn.Pos()),
 		fmt.Sprintf("%d send sites reached only in Z/E; divisions: %s", len(b2sites), strings.Join(divs, "; ")), strings.Join(dedup(problems), "; "))
+}
+
+// checkCommandsBetweenRounds (C01/B14 = C17/R8, v1): a command (AddInput / RemoveInput) changes
+// the registered set, the shares and - for a removal - deletes the allotment entry of its
+// priority. It is therefore received only where no activation that works with the round's
+// allotment is on the stack: never in the sending function, in a function that reads or writes
+// the allotment map, or in anything those call. (Served inside a blocked send of priority k, a
+// RemoveInput(k) deletes tactic[k]; the decrement that follows the send wraps around, the
+// remainder of the round becomes huge and the second phase hands out far more than
+// HandlersQuantity.)
+func checkCommandsBetweenRounds(c *Ctx, pr *prioRoles, rule string) {
+	p := pr.p
+	core := map[*ssa.Function]bool{pr.sendFn: true}
+	for _, fn := range pr.rt.Funcs {
+		for _, b := range fn.Blocks {
+			for _, in := range b.Instrs {
+				if w, ok := p.mapWriteOf(nil, in); ok && w.Field == "tactic" {
+					core[fn] = true
+				}
+				if lk, ok := in.(*ssa.Lookup); ok && p.isFieldLoad(lk.X, "tactic") {
+					core[fn] = true
+				}
+			}
+		}
+	}
+	// (the handlers of the commands themselves write the allotment map - delete(tactic, k), the
+	// re-division - but are entered from the clause, not the other way round)
+	bad := map[*ssa.Function]*ssa.Function{}
+	var roots []*ssa.Function
+	for f := range core {
+		roots = append(roots, f)
+	}
+	sort.Slice(roots, func(i, j int) bool { return p.FnKey(roots[i]) < p.FnKey(roots[j]) })
+	for _, g := range roots {
+		for f := range p.Reach(g) {
+			if _, seen := bad[f]; !seen {
+				bad[f] = g
+			}
+		}
+	}
+	n := 0
+	for _, fn := range pr.rt.Funcs {
+		for _, s := range Selects(fn) {
+			for _, cs := range p.SelectInfo(s).Cases {
+				role := p.chanRole(cs.State.Chan)
+				if role != "field:inputAdds" && role != "field:inputRmvs" {
+					continue
+				}
+				n++
+				key := p.FnKey(fn) + "#command:" + strings.TrimPrefix(role, "field:")
+				if g, isBad := bad[fn]; isBad {
+					c.R.Fail(rule, key, p.InstrPos(s), "a command is received in "+fn.Name()+", which runs while "+g.Name()+" works with the round's allotment: a removal served here deletes the allotment entry under a decrement that follows (the counter wraps and the round hands out more than HandlersQuantity), an addition re-divides the shares in the middle of a round")
+				} else {
+					c.R.Pass(rule, key, p.InstrPos(s), "received outside every function that uses the round's allotment")
+				}
+			}
+		}
+		for _, rs := range p.RecvSites(fn) {
+			if rs.Case != nil {
+				continue
+			}
+			if role := p.chanRole(rs.Chan); role == "field:inputAdds" || role == "field:inputRmvs" {
+				n++
+				_, isBad := bad[fn]
+				c.R.Check(!isBad, rule, p.FnKey(fn)+"#command-recv:"+strings.TrimPrefix(role, "field:"), rs.Pos(p), "received outside every function that uses the round's allotment", "a command is received while the round's allotment is in use")
+			}
+		}
+	}
+	if n == 0 {
+		c.R.Fail(rule, pr.key+"#commands", "-", "UNRESOLVED-ANCHOR: no receive from the command channels found in the scheduler's goroutine")
+	}
 }
